@@ -138,7 +138,10 @@ struct StateProp : Prop {
 				J e;
 				if (is_c08) {
 					// occupancy subset
-					do { e = api::uplink_event(r, w, 0); } while (e.geti("type") != MSG_BM_OCC && e.geti("type") != MSG_BM_FREE && e.geti("type") != MSG_BM_MULTIPLE && e.geti("type") != MSG_BM_ADDRESS);
+					// (one event in eight is another report about segments or trains - confidence, current, speed, dynamic state: presence must not move)
+					bool other = r.chance(125);
+					do { e = api::uplink_event(r, w, 0); } while (other ? (e.geti("type") != MSG_BM_CONFIDENCE && e.geti("type") != MSG_BM_CURRENT && e.geti("type") != MSG_BM_SPEED && e.geti("type") != MSG_BM_DYN_STATE)
+					                                                      : (e.geti("type") != MSG_BM_OCC && e.geti("type") != MSG_BM_FREE && e.geti("type") != MSG_BM_MULTIPLE && e.geti("type") != MSG_BM_ADDRESS));
 				} else e = api::uplink_event(r, w, 0);
 				if (!is_c08) {
 					uint64_t z = r.below(100);
@@ -382,7 +385,7 @@ struct StateProp : Prop {
 		f.set("nontrivial", is_c08 ? (span2 > 0 || shared2 > 0) : (model.unknown_targets > 0 && model.list_valued > 0));
 		f.set("shape", (long long) (pc::shape_hash(e.plan) >> 1));
 		J p = J::obj(); p.set("state_comparisons", (long long) checks); p.set("unknown_target_messages", (long long) model.unknown_targets); p.set("list_valued_messages", (long long) model.list_valued);
-		p.set("corrupted_copies_delivered", (long long) corrupted_seen); p.set("application_resets_folded", (long long) resets_folded); p.set("topology_notices", (long long) topo_events);
+		if (!is_c08) p.set("corrupted_copies_delivered", (long long) corrupted_seen); p.set("application_resets_folded", (long long) resets_folded); p.set("topology_notices", (long long) topo_events);
 		if (is_c08) { p.set("train_spanning_two_segments", (long long) span2); p.set("segment_with_two_addresses", (long long) shared2); p.set("consistent_snapshots_checked", (long long) snapshot_checks); p.set("concurrent_presence_results_judged", (long long) reader_results_judged); p.set("concurrent_presence_results_overlapping_an_update", (long long) reader_results_overlapping_update); p.set("snapshots_overlapping_an_update", (long long) snapshot_skipped); }
 		f.set("probes", p);
 	}
